@@ -197,6 +197,37 @@ def _incomplete(cls, symbolic=True):
     raise KeyError(cls)
 
 
+def concrete_csv(inp):
+    """a membrane loaded from ideal_experiments.csv whose activation_energy cell is EMPTY has no stated energy: with fewer than two
+    experiments of the component an off-temperature query must be rejected (concrete point: an empty cell is a NaN, outside real arithmetic)"""
+    import os
+    import shutil
+    import tempfile
+    import warnings
+    d = tempfile.mkdtemp(prefix="c19_", dir=os.environ.get("TMPDIR"))
+    bad = []
+    try:
+        with open(os.path.join(d, "ideal_experiments.csv"), "w") as f:
+            f.write("name,temperature,component,activation_energy,permeance,units,comment\n")
+            f.write("m,320.0,H2O,,0.05,kg/(m2*h*kPa),x\n")
+            if inp.get("rows", 1) == 2:
+                f.write("m,330.0,EtOH,,0.002,kg/(m2*h*kPa),x\n")
+        with warnings.catch_warnings():
+            warnings.simplefilter("ignore")
+            mem = Membrane.load(d)
+            c = Mixtures.H2O_EtOH.first_component
+            for what, call in (("calculate_activation_energy", lambda: mem.calculate_activation_energy(c)), ("get_permeance(334 K)", lambda: mem.get_permeance(334.0, c)),
+                               ("get_estimated_pure_component_flux(334 K)", lambda: mem.get_estimated_pure_component_flux(334.0, c))):
+                try:
+                    r = call()
+                    bad.append("%s on a membrane loaded from a CSV with one H2O experiment and an empty activation-energy cell returned %r" % (what, getattr(r, "value", r)))
+                except Exception:
+                    pass
+    finally:
+        shutil.rmtree(d, ignore_errors=True)
+    return {"ok": not bad, "detail": "; ".join(bad[:2]), "inputs": inp}
+
+
 CLASSES = ("one_experiment_per_component_no_energy_activation", "one_experiment_per_component_no_energy_permeance","mixture_without_parameters", "nrtl_parameters_missing", "nrtl_parameters_missing_partial_pressures", "uniquac_parameters_missing",
            "uniquac_constants_missing_first", "uniquac_constants_missing_second", "curve_without_fluxes_and_permeances",
            "single_experiment_no_energy_activation", "single_experiment_no_energy_permeance")
@@ -221,6 +252,9 @@ def incomplete(job):
                 job.prove(tag + "_does_not_return", dom + leaf.pc, z3.BoolVal(True), R_, {"class": cls}, fallback=[{"class": cls}])
         if n == 0:
             job.vacuity["failed"].append(cls)
+    # the same class through the CSV loader (empty cell = no stated energy); concrete points, labelled as such
+    for rows in (1, 2):
+        job.refute_concretely("C19/incomplete/csv_empty_activation_energy/rows%d" % rows, "vf.props.C19:concrete_csv", {"rows": rows})
     # twins: complete specifications return
     job.vacuity["checked"] += 1
     c1, c2 = build.sym_component("1", uniquac=True), build.sym_component("2", uniquac=True)
